@@ -56,6 +56,11 @@ func (rule *RuleEvents) checkEvent(event Event) {
 
 // https://docs.github.com/en/actions/learn-github-actions/workflow-syntax-for-github-actions#onschedule
 func (rule *RuleEvents) checkCron(spec *String) {
+	if (strings.HasPrefix(spec.Value, "TZ=") || strings.HasPrefix(spec.Value, "CRON_TZ=")) && !strings.Contains(spec.Value, " ") {
+		// The cron parser panics (slice bounds out of range) when nothing follows the time zone
+		rule.Errorf(spec.Pos, "invalid CRON format %q in schedule event: no schedule follows the time zone", spec.Value)
+		return
+	}
 	p := cron.NewParser(cron.Minute | cron.Hour | cron.Dom | cron.Month | cron.Dow)
 	sched, err := p.Parse(spec.Value)
 	if err != nil {
